@@ -1,6 +1,7 @@
 import ZbossModel.Proofs.Wire
 import ZbossModel.Proofs.WireSound
 import ZbossModel.CStruct
+import ZbossModel.Proofs.CStructRT
 /-! # C16 - wire types are self-delimiting, strict on short input, and invert exactly -/
 namespace Zboss.Wire
 
@@ -172,5 +173,20 @@ theorem C16_nvram_apskeys (rec : List ST) (hpos : 0 < recSize rec) (rs : List (L
 example : offsets true [.int 1 false, .struct [.int 1 false, .int 4 false], .int 2 false] 0 = [0, 4, 12] ∧
     (CTy.struct [.int 1 false, .struct [.int 1 false, .int 4 false], .int 2 false]).size true = 16 ∧
     (CTy.struct [.int 1 false, .struct [.int 1 false, .int 4 false], .int 2 false]).size false = 8 := by decide
+
+end Zboss.CStruct
+
+namespace Zboss.CStruct
+open Wire
+
+/-- **C structs invert exactly** (aligned or packed, nested to any depth): the serialization has the struct's
+    declared size, and deserializing it - followed by any further bytes - returns the value and exactly those
+    bytes; inner and final padding is skipped, never interpreted -/
+theorem C16_cstruct_roundtrip (al : Bool) (t : CTy) (v : CVal) (b r : Bytes) (h : encC al t v = some b) :
+    b.length = t.size al ∧ decC al t (b ++ r) = .ok (v, r) := encC_roundtrip al t v b r h
+
+/-- non-vacuity: `{u8; {u8; u32}; u16}` aligned: 1 + 3 pad + (1 + 3 pad + 4) + 2 + 2 final pad = 16 bytes -/
+example : (encC true (.struct [.int 1 false, .struct [.int 1 false, .int 4 false], .int 2 false])
+    (.struct [.num 1, .struct [.num 2, .num 3], .num 4])).map List.length = some 16 := by decide +kernel
 
 end Zboss.CStruct
